@@ -6,10 +6,13 @@ import (
 	"fmt"
 	"os"
 	"path/filepath"
+	"strings"
 	"testing"
 
 	"go.lsp.dev/protocol"
 
+	"github.com/juev/hledger-lsp/internal/ast"
+	"github.com/juev/hledger-lsp/internal/include"
 	"github.com/juev/hledger-lsp/internal/parser"
 	"github.com/juev/hledger-lsp/internal/workspace"
 )
@@ -161,6 +164,31 @@ func TestVerifWitness_C08_commodity_directive_range(t *testing.T) {
 			fmt.Printf("WITNESS-FAILS 'commodity EUR': declaration reported with range %v\n", l.Range)
 			return
 		}
+	}
+	fmt.Println("WITNESS-HOLDS")
+}
+
+// C09 server.allJournalsWithPaths#ensures.current_file_searched: a request from a file outside the workspace tree still finds its own occurrences.
+func TestVerifWitness_C09_standalone_file_in_workspace(t *testing.T) {
+	dir := t.TempDir()
+	root := filepath.Join(dir, "main.journal")
+	other := filepath.Join(dir, "other.journal")
+	os.WriteFile(root, []byte("2024-01-01 a\n    expenses:food  1 USD\n    assets:cash\n"), 0o644)
+	otherText := "2024-01-02 b\n    expenses:food  2 USD\n    assets:cash\n"
+	os.WriteFile(other, []byte(otherText), 0o644)
+	wsJournal, _ := parser.Parse("2024-01-01 a\n    expenses:food  1 USD\n    assets:cash\n")
+	cur, _ := parser.Parse(otherText)
+	tree := &include.ResolvedJournal{Primary: wsJournal, PrimaryPath: root, Files: map[string]*ast.Journal{}}
+	locs := findAccountReferences("expenses:food", tree, other, cur, true)
+	own := 0
+	for _, l := range locs {
+		if strings.HasSuffix(string(l.URI), "other.journal") {
+			own++
+		}
+	}
+	if own == 0 {
+		fmt.Printf("WITNESS-FAILS references for expenses:food requested from other.journal (not included by the workspace root): %d locations, none in other.journal itself\n", len(locs))
+		return
 	}
 	fmt.Println("WITNESS-HOLDS")
 }
